@@ -8,7 +8,7 @@ for d in ${@:-$(ls seeded)}; do
   (cd /repo && git checkout -- .)
   kind=$(grep -c "no-failing-input-found" /tmp/seed_$d.log)
   nv=$(grep -c "^VIOLATION" /tmp/seed_$d.log)
-  case $d in *n|*n2|*n3) want=0;; *) want=1;; esac
+  case $d in *n|*n2|*n3|*n4) want=0;; *) want=1;; esac
   [ $rc -eq $want ] && verdict=as-expected || verdict=UNEXPECTED
   echo "$d check=$P rc=$rc (want $want) violations=$nv without_input=$kind $verdict"
 done
